@@ -183,8 +183,14 @@ def log_parameters(
     import xarray as xr
 
     out = xr.Dataset()
+    dim_idx = 0
     for key, value in parameter_dict.items():
         da = xr.DataArray(value)
+
+        # Each multi-dimensional parameter gets its own dimension(s)
+        da = da.rename({dim: f"dim_{dim_idx + i}" for i, dim in enumerate(da.dims)})
+        dim_idx += da.ndim
+
         da = da.assign_coords(coords={"id": processor_id})
         da = da.expand_dims(dim="id")
         out[short(key)] = da
@@ -431,6 +437,7 @@ def _run_observation_deprecated(
             [] for _ in range(len(observation.parameter_mode.enabled_steps))
         ]
         logs = []
+        stored_indices: list[set[int]] = [set() for _ in parameters]
 
         for processor_id, (indices, parameter_dict, _) in enumerate(lst):
             # log parameters for this pipeline
@@ -441,6 +448,10 @@ def _run_observation_deprecated(
 
             # save parameters with appropriate product mode indices
             for i, coordinate in enumerate(parameter_dict):
+                if indices[i] in stored_indices[i]:
+                    # This value is already stored (it is used by several runs)
+                    continue
+
                 parameter_ds = parameter_to_dataset(
                     parameter_dict=parameter_dict,
                     dimension_names=dim_names,
@@ -448,6 +459,7 @@ def _run_observation_deprecated(
                     coordinate_name=coordinate,
                 )
                 parameters[i].append(parameter_ds)
+                stored_indices[i].add(indices[i])
 
         # merging/combining the outputs
         final_parameters_list: list[xr.Dataset] = []
